@@ -16,3 +16,4 @@ def run(ck):
     region.r_instantiation_signedness(ck, P, 'C05-R9')
     region.r5_8_cached_field_follows_cursor(ck, P)
     region.r6_7_normalise_after_last_change(ck, P, 'C05-R10')
+    region.r5_11_constructed_rectangle_validated(ck, P)
